@@ -165,12 +165,12 @@ def cases(draw):
                 if extra[1] != t["entries"][k][1]:
                     t["entries"].insert(k + draw(st.integers(0, 1)), extra)
     # the default minimumIntervalLength (1e-8) is used where no interval or gap can be that short
-    mil = "default" if gen.min_gap(tg) >= 1e-6 and draw(st.booleans()) else "none"
+    mil = "default" if gen.min_gap(tg) >= 1e-6 and draw(st.integers(0, 2)) > 0 else "none"
     return {"tg": tg, "mil": mil}
 
 
 CHECKS = [
-    Check("roundtrip", run_roundtrip, strategy=lambda tier: cases(), quick_n=400, thorough_n=4000, fuzz_runs=6000,
+    Check("roundtrip", run_roundtrip, strategy=lambda tier: cases(), quick_n=500, thorough_n=4000, fuzz_runs=6000,
           doc="each case is saved and reopened in all 16 format/flag combinations"),
 ]
 
